@@ -1,0 +1,52 @@
+//go:build verif
+
+// Test equipment for the /verif harness (properties C25, C28), compiled only with -tags verif:
+// a raw writer for zero-length records (Conn.Write cannot emit them: writeRecordLocked loops while
+// len(data) > 0) and a way to move a pair of matched halves to a chosen sequence number, so that the
+// byte boundaries of the 64-bit record counter can be reached without sending 2^16 or 2^32 records.
+
+package tls
+
+import "errors"
+
+// VerifWriteEmptyRecord seals and sends one record of the given content type with an empty payload,
+// the way writeRecordLocked would for a non-empty one (conn.go:1010-1030).
+func (c *Conn) VerifWriteEmptyRecord(typ uint8) error {
+	c.out.Lock()
+	defer c.out.Unlock()
+	if err := c.out.err; err != nil {
+		return err
+	}
+	vers := c.vers
+	if vers == 0 {
+		vers = VersionTLS10
+	} else if vers == VersionTLS13 {
+		vers = VersionTLS12
+	}
+	outBuf := []byte{typ, byte(vers >> 8), byte(vers), 0, 0}
+	outBuf, err := c.out.encrypt(outBuf, nil, c.config.rand())
+	if err != nil {
+		return err
+	}
+	_, err = c.write(outBuf)
+	return err
+}
+
+// VerifSetSeq overwrites the sequence number of the write half (out = true) or the read half of c.
+// Only meaningful when the peer's opposite half is moved to the same value.
+func (c *Conn) VerifSetSeq(out bool, seq uint64) error {
+	hc := &c.in
+	if out {
+		hc = &c.out
+	}
+	hc.Lock()
+	defer hc.Unlock()
+	if hc.cipher == nil {
+		return errors.New("verif: no cipher installed")
+	}
+	for i := 7; i >= 0; i-- {
+		hc.seq[i] = byte(seq)
+		seq >>= 8
+	}
+	return nil
+}
